@@ -104,6 +104,10 @@ nat_const("DuplicatedAssertionLimitLength", "pkg/infrastructure/constants/java_t
 strlist_const("ASSERTION_LIST", "pkg/infrastructure/constants/java_target_config.go",
               r"ASSERTION_LIST\s*=\s*\[\]string\{(.*?)\}", "assertion prefixes")
 
+# ---- architecture graph (C13)
+nat_const("tequila_Level", "pkg/application/arch/tequila/merge_viz.go",
+          r"^var Level = (\d+)\s*$", "MergePackageFunc depth")
+
 # ---- cloc (C16)
 strlist_const("cloc_ignore_dirs", "pkg/application/cloc/cloc_app.go",
               r"func IsIgnoreDir.*?\[\]string\{(.*?)\}", "directories skipped by the by-directory report")
